@@ -272,7 +272,11 @@ class World:
                     # create without a partition means the default partition
                     rsrc['partition'] = r['part']
                 if r['tg']:
-                    rsrc['traits'] = sorted(r['traits'])
+                    # the ORDER of a traits list is an input dimension of its own (the
+                    # model sees a set): alternate deterministically between the two
+                    # sorted orders so that limited and unlimited traits meet both ways
+                    flip = (int(r['cpu'][0]) + int(r['memory'][0]) + len(alloc)) % 2 == 1
+                    rsrc['traits'] = sorted(r['traits'], reverse=flip)
                 if ev == 'Create':
                     rsv.create(rsrc_id, rsrc)
                 elif ev == 'Update':
